@@ -641,8 +641,12 @@ class MappingSchema(AbstractMappingSchema, Schema):
         normalize = self.normalize if normalize is None else normalize
 
         dialect = dialect or self.dialect
-        name_str = name if isinstance(name, str) else name.name
-        cache_key = (name_str, dialect, is_table, normalize)
+        if isinstance(name, str):
+            name_str, quoted = name, False
+        else:
+            # A quoted identifier and an unquoted one of the same text normalize differently
+            name_str, quoted = name.name, bool(name.args.get("quoted"))
+        cache_key = (name_str, quoted, dialect, is_table, normalize)
 
         if cached := self._normalized_name_cache.get(cache_key):
             return cached
